@@ -735,6 +735,10 @@ def sc_static(tier, rng):
                 out.append({'toc': std_toc(), 'cfgs': [cfg(vs), EMPTY], 'steps': life(1, nt + nm, False), 'kind': 'memory'})
     out.append({'toc': std_toc(), 'cfgs': [cfg([M('mem.first', 1, 1), V('v.x0', 1)]), cfg([V('v.x3', 4), M('mem.last', 8, 7, 0xFFFFFFFF)])],
                 'steps': life(1, 1, False) + life(2, 2, False), 'kind': 'memory'})
+    # minimal histories around re-add and raw memory
+    out.append({'toc': std_toc(), 'cfgs': [cfg([V('v.x1', 0)]), EMPTY], 'steps': [('add', 1), ('reconnect',), ('add', 1)], 'kind': 'minimal'})
+    out.append({'toc': std_toc(), 'cfgs': [cfg([V('v.x1', 2)]), EMPTY], 'steps': [('add', 1), ('reconnect',), ('add', 1)], 'kind': 'minimal'})
+    out.append({'toc': std_toc(), 'cfgs': [cfg([M('mem.a', 1, 1)]), EMPTY], 'steps': [('add', 1), ('start', 1)], 'kind': 'minimal'})
     # table indices that need both index bytes
     big = std_toc(300)
     for names in (['v.x254', 'v.x255', 'v.x256', 'v.x257'], ['v.x299', 'v.x0', 'v.x255'], ['v.x256'] * 1):
@@ -1304,8 +1308,9 @@ def main(tier, seed, replay=None):
         'excluded_racy_or_multi_logger': sum(1 for t in all_traces if t.get('noconf') and id(t) not in badset),
         'explained_by_design_spec': sum(1 for t in all_traces if not t.get('noconf') and id(t) not in badset) - len(drift),
         'drift': len(drift), 'first_drift': [{'event': t['ev'][a - 1]['e'] if 0 < a <= len(t['ev']) else a} for (t, a) in drift[:3]]}
-    for (t, clause, at) in bad:
-        out.violation(signature(t, clause, at), clause, _detail(t, at), {'scenario': all_scs[all_traces.index(t)]})
+    pos = {id(t): i for i, t in enumerate(all_traces)}
+    for (t, clause, at) in sorted(bad, key=lambda b: (len(b[0]['ev']), pos[id(b[0])])):      # shortest witness first
+        out.violation(signature(t, clause, at), clause, _detail(t, at), {'scenario': all_scs[pos[id(t)]]})
     out.evaluations = sum(len(t['ev']) for t in all_traces)
     out.distinct = len({json.dumps([t['cfgs'], [(e['e'], e.get('c'), e.get('res'), e.get('cmd'), e.get('st_ack'), e.get('wire')) for e in t['ev']]],
                                    sort_keys=True) for t in all_traces})
